@@ -340,6 +340,8 @@ def validate_traces(traces, module="StreamTrace", cfg="StreamTrace.cfg", timeout
             ls = re.findall(r"^/\\ l = (\d+)", r.out, flags=re.M)
             if ls and not r.ok:
                 hw = max(1, int(ls[-1]) - 1)
+        if "violated by the initial state" in r.out:
+            raise common.Infra("trace module: an invariant fails in the initial state\n" + r.out[-800:])
         if hw is None:
             raise common.Infra("trace validation gave no verdict: %s\n%s" % (r.violation, r.out[-1200:]))
         if hw > len(lines):
